@@ -69,9 +69,21 @@ func Fmt_Sprint(a ...any) string { return doPrint(a, false) }
 func Fmt_Sprintln(a ...any) string { return doPrint(a, true) }
 func Fmt_Fprint(w io.Writer, a ...any) (int, error) { return io.WriteString(w, doPrint(a, false)) }
 func Fmt_Fprintln(w io.Writer, a ...any) (int, error) { return io.WriteString(w, doPrint(a, true)) }
-func Fmt_Print(a ...any) (int, error) { return 0, nil }
-func Fmt_Println(a ...any) (int, error) { return 0, nil }
-func Fmt_Printf(format string, a ...any) (int, error) { return 0, nil }
+func Fmt_Print(a ...any) (int, error) {
+	s := doPrint(a, false)
+	VStdoutNode.Data = append(VStdoutNode.Data, s...)
+	return len(s), nil
+}
+func Fmt_Println(a ...any) (int, error) {
+	s := doPrint(a, true)
+	VStdoutNode.Data = append(VStdoutNode.Data, s...)
+	return len(s), nil
+}
+func Fmt_Printf(format string, a ...any) (int, error) {
+	s := doPrintf(format, a)
+	VStdoutNode.Data = append(VStdoutNode.Data, s...)
+	return len(s), nil
+}
 
 func isString(x any) bool {
 	switch verifUnderlying(x).(type) {
